@@ -27,8 +27,9 @@ type Case struct {
 	Sizes []int  `json:"sizes"`
 	// Std != "": autometa reads from a standard-library reader of that dynamic type positioned after Prefix
 	// unrelated bytes (the reference loaders always read the bare input)
-	Std    string `json:"std,omitempty"`
-	Prefix int    `json:"prefix,omitempty"`
+	Seekable bool   `json:"seekable,omitempty"` // the short-reading source also implements io.Seeker
+	Std      string `json:"std,omitempty"`
+	Prefix   int    `json:"prefix,omitempty"`
 }
 
 func check(c Case) (kind, what string, nt bool) {
@@ -58,6 +59,8 @@ func check(c Case) (kind, what string, nt bool) {
 		r, _, cleanup := src.Std(c.Std, c.Prefix, c.Data, filepath.Join(ev.Root(), "out", "run", "C19"))
 		defer cleanup()
 		a = ld.Run("auto", r)
+	} else if c.Seekable {
+		a = ld.Run("auto", src.Seekable{Source: s})
 	} else {
 		a = ld.Run("auto", s)
 	}
@@ -220,6 +223,7 @@ func TestC19(t *testing.T) {
 		}
 		if rapid.Bool().Draw(rt, "short") {
 			c.Sizes = rapid.SliceOfN(rapid.IntRange(1, 5000), 1, 4).Draw(rt, "sizes")
+			c.Seekable = rapid.Bool().Draw(rt, "seekable")
 		} else if rapid.Bool().Draw(rt, "stdreader") {
 			c.Std = rapid.SampledFrom(src.StdKinds).Draw(rt, "stdkind")
 			c.Prefix = rapid.SampledFrom([]int{0, 1, 27, 100, 4096}).Draw(rt, "prefix")
